@@ -267,7 +267,9 @@ class Facts:
                         if re.match(r"^[A-Z][A-Za-z0-9]*$", ty0):
                             return True
             return False
-        helpers = {strip_generics(b["path"]): b for b in raws if is_new(b) and not calls_fn_value(b)}
+        # (a helper that takes a closure and calls it is inlined like any other: the closure literal is then in sight at
+        # the `f(..)` call, where flatten.py splices its body and the lock-order analysis finds it among the call's closures)
+        helpers = {strip_generics(b["path"]): b for b in raws if is_new(b)}
         # thin wrappers of the reference tree that a refactoring may as well write out at the call
         # site: the rules are written against the inlined form, whether or not the wrapper exists
         for b in raws:
@@ -894,6 +896,9 @@ def norm(e):
             for frm, to in (("PartialOrd::ge", "PartialOrd::le"), ("PartialOrd::gt", "PartialOrd::lt")):
                 if e[1].endswith(frm):
                     return ("call", e[1][: -len(frm)] + to, (args[1], args[0]))
+        # `c.is_empty()` is `c.len() == 0` on the std collections
+        if len(args) == 1 and isinstance(e[1], str) and e[1].endswith("::is_empty") and _STD_COLL.search(e[1]):
+            return norm(("bin", "Eq", ("call", e[1][: -len("is_empty")] + "len", args), ("const", 0, "usize")))
         return ("call", e[1], args)
     if k == "index":
         return ("index", norm(e[1]), norm(e[2]))
@@ -1092,6 +1097,9 @@ _DEFAULT_OF = re.compile(r"^<([\w:]+) as (?:std|core)::default::Default>::defaul
 _NUM_FROM = re.compile(r"^(?:std|core)::convert::num::<impl (?:std|core)::convert::From<(\w+)> for (\w+)>::from$")
 
 
+_STD_COLL = re.compile(r"(^|[<:\s])(std|alloc|core)::(vec::Vec|collections::(HashMap|HashSet|BTreeMap|BTreeSet|VecDeque|hash_map::HashMap|hash::map::HashMap)|slice::<impl \[T\]>|string::String|str::<impl str>)(::<[^>]*>)?::is_empty$")
+
+
 class TooManyStates(Exception):
     pass
 
@@ -1265,6 +1273,16 @@ def dataflow(body, init_user=None, node_fn=None, edge_fn=None, max_states=4096, 
                     and node["rv"].get("variant") and len(body.defs.get(node["pl"]["l"], ())) > 1:
                 # `x = Variant(..)` on one of several definitions of x: a later `match x` on this path takes that arm only
                 flag = (("variant", norm(body.place_expr(node["pl"], False)), node["rv"]["variant"]), True)
+            alias = None
+            if track_lits and si == n_st and node["k"] == "call" and not node["dest"]["p"] and body.locals[node["dest"]["l"]]["ty"] == "bool" \
+                    and len(body.defs.get(node["dest"]["l"], ())) > 1:
+                # `x = f(..)` on one of several definitions of a boolean x (an inlined `a && f()` helper): a later `if x`
+                # on this path decides f(..)
+                alias = (("alias", norm(body.place_expr(node["dest"], False))), norm(body.call_expr(node, True)))
+            if track_lits and si < n_st and node["k"] == "assign" and not node["pl"]["p"] and node["rv"]["k"] in ("binop", "unop") and body.locals[node["pl"]["l"]]["ty"] == "bool" \
+                    and len(body.defs.get(node["pl"]["l"], ())) > 1:
+                # likewise `x = a != b` (the second operand of an inlined `p && a != b`)
+                alias = (("alias", norm(body.place_expr(node["pl"], False))), norm(body.rvalue_expr(node["rv"], True)))
             for s in states:
                 outs = None
                 if node_fn is not None:
@@ -1288,6 +1306,8 @@ def dataflow(body, init_user=None, node_fn=None, edge_fn=None, max_states=4096, 
                             v = o.value(src)
                             if v is not None:
                                 o = o.set_lit(fx, v)
+                    if alias is not None:
+                        o = o.set_lit(alias[0], alias[1])
                     new_states.add(o)
             states = new_states
             total += len(states)
@@ -1307,6 +1327,11 @@ def dataflow(body, init_user=None, node_fn=None, edge_fn=None, max_states=4096, 
                         o = o.with_lit(atom, pol)
                         if o is None:
                             continue
+                        al = o.value(("alias", atom))
+                        if al is not None:
+                            o = o.with_lit(al, pol)
+                            if o is None:
+                                continue
                     if edge_fn is not None:
                         r = edge_fn(o, bi, tgt, atom, pol)
                         if r is not None:
